@@ -417,11 +417,18 @@ func genRecovery(r *Repo) (string, error) {
 				opIdx = i
 			}
 		}
+		ctorName := "txnWith"
+		if ct := r.txnCtor(); ct != nil {
+			ctorName = ct.name
+		}
 		ast.Inspect(f.Body, func(n ast.Node) bool {
 			if ce, ok := n.(*ast.CallExpr); ok {
+				if id, ok := ce.Fun.(*ast.Ident); ok && id.Name == ctorName {
+					opens = true
+				}
 				if se, ok := ce.Fun.(*ast.SelectorExpr); ok {
 					switch se.Sel.Name {
-					case "Txn", "txnWith", "txn":
+					case "Txn", "txnWith", "txn", ctorName:
 						opens = true
 					}
 					for k, name := range ops {
